@@ -142,10 +142,10 @@ theorem stub_names_exact (N : Naming) (api : Api) (ns : Namespace) (m : ModDecl)
     simp [stubTypevars, stubAnnoType, judgedItem, stubRoutes, List.flatMap_map, flatMap_nil', flatMap_single']
 
 /-- The runtime module defines exactly the enumerated names, the validator of an alias being named
-after `alias.name` itself. -/
+after `fmt_class(alias.name)` as well (since the repair of D20; it used to be `alias.name` itself). -/
 theorem runtime_names_exact (N : Naming) (api : Api) (ns : Namespace) (m : ModDecl)
     (h : rtNs N api ns = .ok m) :
-    judgedNames m = judgedSpec N ns (fun n => n ++ "_validator") := by
+    judgedNames m = judgedSpec N ns (fun n => fmtClass N n ++ "_validator") := by
   unfold rtNs at h
   split at h
   · cases h
@@ -160,21 +160,16 @@ theorem stub_ok_iff_runtime_ok (N : Naming) (api : Api) (ns : Namespace) :
   unfold stubNs rtNs
   cases routeConflict N [] ns.routes <;> simp
 
-/-- **C15, names.** For every API description and namespace whose alias names are left unchanged by
-the class-name formatter, the judged names the stub declares are the judged names the runtime module
-defines (same kinds, same names, same order). Without the hypothesis the exact relation is
-`stub_names_exact` / `runtime_names_exact`: the two sides differ exactly in the validator names of
-the aliases that `fmt_class` changes (D20, `d20_counterexample`). -/
+/-- **C15, names.** For every API description, namespace and naming, the judged names the stub
+declares are the judged names the runtime module defines (same kinds, same names, same order): per
+struct / union its class and `<Class>_validator`, per alias `<fmt_class(alias)>_validator` and, for
+an alias of a struct or union, the raw alias name, per route its object (`judgedSpec`). No
+hypothesis: both generators name the validator of an alias after `fmt_class(alias.name)`
+(regression example of D20 below). -/
 theorem stub_eq_runtime_names (N : Naming) (api : Api) (ns : Namespace) (ms mr : ModDecl)
-    (hst : aliasNamesStable N ns = true)
     (hs : stubNs N api ns = .ok ms) (hr : rtNs N api ns = .ok mr) :
     judgedNames ms = judgedNames mr := by
   rw [stub_names_exact N api ns ms hs, runtime_names_exact N api ns mr hr]
-  apply judgedSpec_congr
-  intro a ha
-  have := (List.all_eq_true.mp hst) a ha
-  have e : fmtClass N a.name = a.name := by simpa using this
-  simp [e]
 
 /-! ## Bases and constructor parameters -/
 
@@ -263,21 +258,26 @@ theorem stub_imports_closed (N : Naming) (api : Api) (ns : Namespace) (m : ModDe
       simp only [List.flatMap_map, List.mem_flatMap, Import.binds, List.mem_singleton]
       exact ⟨i, hi, rfl⟩
 
-/-! ## The two hypotheses are needed: what the real generators do outside them -/
+/-! ## Regression of D20, and the hypothesis of `stub_imports_closed` is needed -/
 
-/-- `alias AS = String` (D20): `fmt_class` turns `AS` into `As` -/
-def d20Ns : Namespace := { name := "n", aliases := [⟨"AS", .string⟩, ⟨"HTTPCode", .integer⟩, ⟨"Plain", .string⟩] }
+/-- alias names `fmt_class` changes (`AS` → `As`, `HTTPCode` → `HttpCode`, `HTTPUnion` → `HttpUnion`),
+one it leaves alone, and an alias of a union -/
+def d20Ns : Namespace :=
+  { name := "n",
+    types := [{ kind := .union, name := "U", fields := [⟨"a", .void, false⟩] }],
+    aliases := [⟨"AS", .string⟩, ⟨"HTTPCode", .integer⟩, ⟨"Plain", .string⟩, ⟨"HTTPUnion", .user "n" "U"⟩] }
 def d20Api : Api := ⟨[d20Ns]⟩
 
-/-- D20 in the model: the stub declares `As_validator` / `HttpCode_validator`, the runtime module
-defines `AS_validator` / `HTTPCode_validator`; an alias name that is a fixed point of `fmt_class`
-(`Plain`) agrees. So `aliasNamesStable` cannot be dropped from `stub_eq_runtime_names`. -/
-theorem d20_counterexample :
+/-- D20 repaired: stub and runtime module both say `As_validator` / `HttpCode_validator` /
+`HttpUnion_validator`; the class alias of a struct or union is bound under the RAW alias name on
+both sides (`HTTPUnion`, identical text `alias.name = class` in the two backends). -/
+example :
     aliasNamesStable pyNaming d20Ns = false ∧
     (stubNs pyNaming d20Api d20Ns).map judgedNames =
-      .ok [(.validator, "As_validator"), (.validator, "HttpCode_validator"), (.validator, "Plain_validator")] ∧
-    (rtNs pyNaming d20Api d20Ns).map judgedNames =
-      .ok [(.validator, "AS_validator"), (.validator, "HTTPCode_validator"), (.validator, "Plain_validator")] := by
+      .ok [(.cls, "U"), (.validator, "U_validator"),
+           (.validator, "As_validator"), (.validator, "HttpCode_validator"), (.validator, "Plain_validator"),
+           (.validator, "HttpUnion_validator"), (.aliasName, "HTTPUnion")] ∧
+    (rtNs pyNaming d20Api d20Ns).map judgedNames = (stubNs pyNaming d20Api d20Ns).map judgedNames := by
   refine ⟨by decide, ?_, ?_⟩ <;> rfl
 
 /-- namespace `a` uses the alias `b.Al`, whose target `c.Foo` lives in a third namespace; `a` imports
@@ -320,8 +320,7 @@ def exFiles : Namespace :=
     routes := [⟨"get", 1⟩, ⟨"get", 2⟩] }
 def exApi : Api := ⟨[exCommon, exFiles]⟩
 
-example : chainsOK exApi = true ∧ refsCovered exApi exFiles = true ∧ refsCovered exApi exCommon = true ∧
-    aliasNamesStable pyNaming exCommon = true ∧ aliasNamesStable pyNaming exFiles = true := by decide
+example : chainsOK exApi = true ∧ refsCovered exApi exFiles = true ∧ refsCovered exApi exCommon = true := by decide
 
 /-- the judged names of `files`, both sides -/
 example : (stubNs pyNaming exApi exFiles).map judgedNames =
